@@ -50,7 +50,7 @@ def main():
     for f in sorted(glob.glob(os.path.join(HERE, "seeded", "*", "patch.diff"))):
         sid = os.path.basename(os.path.dirname(f))
         jobs.append(("seed-" + sid, os.path.relpath(f, HERE), False, base))
-    with ProcessPoolExecutor(max_workers=16) as ex:
+    with ProcessPoolExecutor(max_workers=int(os.environ.get("WV_JOBS", "16"))) as ex:
         res = list(ex.map(one, jobs))
     json.dump(res, open(os.path.join(HERE, "selftest", "mutants.json"), "w"), indent=1)
     for r in res:
